@@ -88,6 +88,7 @@ type Gateway struct {
 	Bus    []int // payload ids put on the bus, in order
 	Acked  []int // payload ids of own requests that were acknowledged, in order
 	Epochs int
+	Att    int // connect attempt that created the current connection
 }
 
 func NewGateway(rec *Recorder, tcp bool) *Gateway {
@@ -106,8 +107,17 @@ func (g *Gateway) Recv(f Frame) []Frame {
 	g.Rec.FrameEv("GwRecv", f, -1)
 	switch s := f.Srv.(type) {
 	case *knxnet.ConnReq:
+		if g.Connected && f.Att == g.Att && g.ConnPolicy == "ok" {
+			// repetition of the request that created this connection: same answer again
+			g.send(&out, &knxnet.ConnRes{Channel: uint8(g.Chan), Status: knxnet.NoError, Control: s.Control})
+			break
+		}
+		if f.Att < g.Att {
+			break // a datagram of an earlier attempt that outlived its connection
+		}
 		switch g.ConnPolicy {
 		case "ok":
+			g.Att = f.Att
 			g.Connected = true
 			g.Chan = g.NextChan
 			g.Expect, g.Seq, g.Pending = 0, 0, false
